@@ -15,10 +15,11 @@
 (***************************************************************************)
 EXTENDS Integers, Sequences, FiniteSets, TLC
 
-CONSTANTS Kinds,        \* subset of {"vv", "vr", "mem", "inv", "vrbig", "stk"}
+CONSTANTS Kinds,        \* subset of {"vv", "vr", "mem", "inv", "vrbig", "stk", "vrseq"}
           MaxStrLen,    \* string lengths 0..MaxStrLen
           Forks,        \* fork names for the invisibility vectors
-          WorkBound     \* bytes a flat-fee journal instruction may copy / allocate (C20)
+          WorkBound,    \* bytes a flat-fee journal instruction may copy / allocate (C20)
+          RunAlloc      \* bytes one harness run (environment, program, state) allocates besides that: measured about 60 KiB, allowed 256 KiB
 
 VARIABLE vec
 vars == <<vec>>
@@ -105,7 +106,19 @@ VRBIG == {[k |-> "vrbig", cls |-> c] : c \in 1..4}
 Arity == <<3, 4, 6, 5, 6, 5, 4, 2>>
 STK == {[k |-> "stk", op |-> o, height |-> h] : o \in 0..7, h \in 0..8}
 
-Vectors == (IF "stk" \in Kinds THEN STK ELSE {}) \cup (IF "vv" \in Kinds THEN VV ELSE {}) \cup (IF "vr" \in Kinds THEN VR ELSE {})
+\* several reference journals in one transaction: variable a (l1 bytes), variable b (l2 bytes), and - again - variable a after it was
+\* assigned other content of l3 bytes.  Every record is the content at the moment of its instruction and stays that.
+SeqLens == {0, 5, 31, 32, 40, 64, 100}
+VRSEQ == {[k |-> "vrseq", l1 |-> x, l2 |-> y, l3 |-> z, again |-> g] : x \in SeqLens, y \in SeqLens, z \in SeqLens, g \in BOOLEAN}
+StoredAs(c) == [header |-> (IF Len(c) <= 31 THEN HeaderShort(c) ELSE HeaderLong(Len(c))), area |-> (IF Len(c) <= 31 THEN <<>> ELSE AreaOf(c))]
+Collapse2(x, y) == IF x = y THEN <<x>> ELSE <<x, y>>
+SeqExpect(v) ==
+  LET ca == ContentPat("inc", v.l1)  cb == ContentPat("ff", v.l2)  ca2 == ContentPat("lead0", v.l3)
+  IN [a1 |-> StoredAs(ca), b1 |-> StoredAs(cb), a2 |-> StoredAs(ca2),
+      reca |-> (IF v.again THEN Collapse2(ca, ca2) ELSE <<ca>>), recb |-> <<cb>>]
+
+Vectors == (IF "vrseq" \in Kinds THEN {v \in VRSEQ : v.again \/ v.l3 = 0} ELSE {})
+           \cup (IF "stk" \in Kinds THEN STK ELSE {}) \cup (IF "vv" \in Kinds THEN VV ELSE {}) \cup (IF "vr" \in Kinds THEN VR ELSE {})
            \cup (IF "mem" \in Kinds THEN MEM ELSE {}) \cup (IF "inv" \in Kinds THEN INV ELSE {})
            \cup (IF "vrbig" \in Kinds THEN VRBIG ELSE {})
 
@@ -129,10 +142,11 @@ Expect(v) ==
                      ELSE [err |-> TRUE, bytes |-> <<>>, word |-> WordPat(v.pat)]
     [] v.k = "vr" -> LET d == Decode(VRHeader(v), VRArea(v)) IN
                      [err |-> d.err, bytes |-> d.bytes, header |-> VRHeader(v), area |-> VRArea(v)]
-    [] v.k = "mem" -> [outcome |-> MemOutcome(v.msize, v.ptr, v.len)]
+    [] v.k = "mem" -> [outcome |-> MemOutcome(v.msize, v.ptr, v.len), allocBound |-> WorkBound + RunAlloc]
     [] v.k = "inv" -> [invisible |-> TRUE]
     [] v.k = "stk" -> [underflow |-> (v.height < Arity[v.op + 1])]
     [] v.k = "vrbig" -> [bounded |-> TRUE]
+    [] v.k = "vrseq" -> SeqExpect(v)
 
 \* design sanity: the decoder inverts the compiler's layout for every length and content pattern
 RoundTrip ==
